@@ -278,6 +278,32 @@ func runC19(c *Ctx) {
 			}
 		}
 		c.Check(ok404, "C19.W5-not-found-is-empty", find.Name+" › 404 ⇒ empty response", find.SSA.Pos(), "status 404 yields an empty FindResponse and nil error", "not-found is not mapped to (empty response, nil)")
+		// …whatever the body of the 404 looks like: the status alone decides, the return does not hang on the body
+		// having been read (a not-found whose body is cut short is still "no results", not an error)
+		onBody := token.NoPos
+		for _, b := range find.SSA.Blocks {
+			if ret, ok := b.Instrs[len(b.Instrs)-1].(*ssa.Return); ok && len(ret.Results) == 2 && c.RetX(ret, 1).Op == "nil" {
+				if _, g := c.GuardedB(b, Bin("==", Field("StatusCode", Any()), Const("404")), true); !g {
+					continue
+				}
+				for _, f := range c.FactsAt(b) {
+					if f.Cond.Find(func(y *X) bool {
+						if y.Op != "call" && y.Op != "invoke" {
+							return false
+						}
+						for _, a := range y.Args {
+							if a != nil && a.Find(func(z *X) bool { _, m := Match(Field("Body", Any()), z); return m }) != nil {
+								return true
+							}
+						}
+						return false
+					}) != nil && f.If != nil {
+						onBody = f.If.Cond.Pos()
+					}
+				}
+			}
+		}
+		c.Check(ok404 && !onBody.IsValid(), "C19.W5-not-found-is-empty", find.Name+" › 404 decided by the status alone", find.SSA.Pos(), "the not-found return lies under no test on reading the body", "the not-found answer depends on the 404's body having been read (test at "+c.pos(onBody)+"): a not-found whose body is cut short reaches the caller as an error")
 		// the request is for the multihash asked
 		okURL := false
 		for _, cs := range c.Calls(find.SSA, Call("net/url.URL).JoinPath")) {
@@ -305,7 +331,7 @@ func runC19(c *Ctx) {
 		c.Check(ok, "C19.W5-not-found-is-empty", fb.Name+" › skips not-found", fb.SSA.Pos(), "a 404 API error for one multihash is skipped", "batch lookup fails on a not-found element")
 	}
 	c.Floor("C19.W4-same-body-type", 3)
-	c.Floor("C19.W5-not-found-is-empty", 2)
+	c.Floor("C19.W5-not-found-is-empty", 3)
 
 	// ---- W6 Accept header -------------------------------------------------------------------------------
 	supported := map[string]bool{}
@@ -388,7 +414,88 @@ func runC19(c *Ctx) {
 			c.Check(okAll && n > 0, "C19.W6-accept-header", c.short(negFn.String())+" › unsupported media types rejected", negFn.Pos(), "success only with a supported media type found, or with no Accept header at all", "the negotiation can succeed for a request whose Accept header lists only unsupported media types (e.g. through the JSON-preference fallback): the client is sent a body of a type it did not ask for instead of an error")
 		}
 	}
-	c.Floor("C19.W6-accept-header", 7)
+	// every line of the Accept header is looked at: the loop over the header's values is left only when the values
+	// are exhausted or with the "invalid Accept header" error — a malformed value after one that already settled the
+	// media type is still answered 400, and a later */* still counts
+	{
+		var site *ssa.Call
+		for _, f := range c.Funcs("rwriter") {
+			for _, cs := range c.Calls(f.SSA, Call("mime.ParseMediaType")) {
+				site, _ = cs.In.(*ssa.Call)
+			}
+		}
+		var lines *natLoop
+		for hops := 0; site != nil && hops < 3 && lines == nil; hops++ {
+			l := outermostLoop(site.Block())
+			if l != nil {
+				perLine := false
+				isValues := func(s *X) bool {
+					return s.Find(func(y *X) bool { return y.Op == "call" && nameMatches(y.Name, "net/http.Header).Values") }) != nil
+				}
+				for _, s := range c.rangedOver(l) {
+					if isValues(s) {
+						perLine = true
+					}
+					if par, ok := s.V.(*ssa.Parameter); ok && s.Op == "param" {
+						// a slice handed in: the header's values if that is what the caller hands in
+						if sites, ok := c.staticCallSites(par.Parent()); ok {
+							for _, cs := range sites {
+								for i, fp := range par.Parent().Params {
+									if fp == par && i < len(cs.Common().Args) && isValues(c.E(cs.Common().Args[i])) {
+										perLine = true
+									}
+								}
+							}
+						}
+					}
+				}
+				if perLine {
+					lines = l
+					break
+				}
+			}
+			// the loop over the values is in the caller
+			sites, ok := c.staticCallSites(site.Parent())
+			if !ok || len(sites) != 1 {
+				break
+			}
+			site, _ = sites[0].(*ssa.Call)
+		}
+		if lines == nil {
+			c.Unk("C19.W6-accept-header", "rwriter › every Accept value parsed", token.NoPos, "no loop over the values of the Accept header found around mime.ParseMediaType")
+		} else {
+			bad := token.NoPos
+			for u := range lines.Body {
+				if u == lines.Head {
+					continue
+				}
+				for _, v := range u.Succs {
+					if lines.Body[v] {
+						continue
+					}
+					fails := false
+					if ret, ok := v.Instrs[len(v.Instrs)-1].(*ssa.Return); ok && len(ret.Results) > 0 && isErrorType(ret.Results[len(ret.Results)-1].Type()) && c.RetX(ret, len(ret.Results)-1).Op != "nil" {
+						fails = true
+					}
+					if _, ok := v.Instrs[len(v.Instrs)-1].(*ssa.Panic); ok {
+						fails = true
+					}
+					if !fails {
+						bad = u.Instrs[len(u.Instrs)-1].Pos()
+						if !bad.IsValid() && len(v.Instrs) > 0 {
+							bad = v.Instrs[len(v.Instrs)-1].Pos()
+						}
+						if !bad.IsValid() {
+							bad = lines.Head.Parent().Pos()
+						}
+					}
+				}
+			}
+			fn := lines.Head.Parent()
+			c.Check(!bad.IsValid(), "C19.W6-accept-header", c.short(fn.String())+" › every Accept value parsed", fn.Pos(), "the loop over the header's values ends only when they are exhausted or with the invalid-header error", "the loop over the Accept header's values is left early (at "+c.pos(bad)+") once a media type is settled: a malformed value further on is no longer answered with 400, and a later */* no longer counts")
+		}
+	}
+	c.Floor("C19.W6-accept-header", 8)
 
 	// ---- W7 API error across the wire ------------------------------------------------------------------------
 	ee, de := c.Func("apierror", "EncodeError"), c.Func("apierror", "DecodeError")
